@@ -60,6 +60,10 @@ type interpreter struct {
 	errString          types.Type // *errors.errorString
 }
 
+// Models maps the full name of a repo function to a harness function that
+// replaces it under symbolic execution (same signature, receiver first).
+var Models = map[string]*ssa.Function{}
+
 type deferred struct {
 	fn    value
 	args  []value
@@ -135,6 +139,36 @@ func (i *interpreter) ensureInit(pkg *ssa.Package) {
 	call(i, nil, token.NoPos, initFn, nil)
 }
 
+// tolerantInitCall: a package-level initializer of a third-party package that
+// the engine cannot evaluate (reflection, rlp, assembly) leaves its variable at
+// the zero value instead of ending the path; each such variable is listed among
+// the stubs of the run. Paths that depend on one diverge from the native replay
+// and are reported by the witness cross-validation.
+func (fr *frame) tolerantInitCall(instr *ssa.Call) (res value) {
+	defer func() {
+		if r := recover(); r != nil {
+			switch r := r.(type) {
+			case targetPanic, abortPath:
+				callee := "?"
+				if c := instr.Call.StaticCallee(); c != nil {
+					callee = c.String()
+				}
+				fr.i.x.stub(fmt.Sprintf("initializer of %s calling %s left at zero value (%v)", fr.fn.Pkg.Pkg.Path(), callee, r))
+				fr.panicking = false
+				if t, ok := instr.Type().(*types.Tuple); ok && t.Len() == 0 {
+					res = nil
+				} else {
+					res = zero(instr.Type())
+				}
+			default:
+				panic(r)
+			}
+		}
+	}()
+	fn, args := prepareCall(fr, &instr.Call)
+	return call(fr.i, fr, instr.Pos(), fn, args)
+}
+
 func (fr *frame) runDefer(d *deferred) {
 	var ok bool
 	defer func() {
@@ -192,6 +226,10 @@ func visitInstr(fr *frame, instr ssa.Instruction) continuation {
 		fr.env[instr] = binop(fr.i, instr.Op, instr.X.Type(), fr.get(instr.X), fr.get(instr.Y))
 
 	case *ssa.Call:
+		if fr.fn.Synthetic != "" && fr.fn.Name() == "init" && fr.fn.Pkg != nil && !strings.HasPrefix(fr.fn.Pkg.Pkg.Path(), "github.com/Oneledger/protocol") {
+			fr.env[instr] = fr.tolerantInitCall(instr)
+			break
+		}
 		fn, args := prepareCall(fr, &instr.Call)
 		fr.env[instr] = call(fr.i, fr, instr.Pos(), fn, args)
 
@@ -336,6 +374,14 @@ func visitInstr(fr *frame, instr ssa.Instruction) continuation {
 		x := fr.get(instr.X)
 		switch x := x.(type) {
 		case []value:
+			if len(x) == 1 {
+				switch x[0].(type) {
+				case *blob:
+					panic(abortPath{"indexing into an opaque serialised blob"})
+				case *lazyWords:
+					panic(abortPath{"word access to a symbolic big.Int"})
+				}
+			}
 			idx := fr.i.indexIn(fr.get(instr.Index), len(x))
 			fr.env[instr] = &x[idx]
 		case *value: // *array
@@ -500,6 +546,10 @@ func callSSA(i *interpreter, caller *frame, callpos token.Pos, fn *ssa.Function,
 	}
 	name := fn.String()
 	if fn.Parent() == nil {
+		if m := Models[name]; m != nil {
+			i.x.stub("model of " + name + ": harness function " + m.Name() + " (see its source; agreement with the real function is sampled by the native replay of path witnesses)")
+			return callSSA(i, caller, callpos, m, args, nil)
+		}
 		if ext := externals[name]; ext != nil {
 			if i.trace {
 				fmt.Fprintf(os.Stderr, "%*s(intrinsic) %s\n", i.depth, "", name)
